@@ -60,10 +60,11 @@ class _transform_point:
     class); hypot / arctan2 / arccos are uninterpreted symbols with their defining axioms (DESIGN 2.5)"""
 
     def configs():
-        return [{"cls": cls, "d": d, "n": None} for cls, dims in SRC_DIM.items() for d in dims]
+        return [{"cls": cls, "d": d, "n": None} for cls, dims in SRC_DIM.items() for d in dims] + \
+               [{"cls": cls, "d": SRC_DIM[cls][0], "n": None, "in_dtype": "float32"} for cls in ("PolarHistogram", "SphericalHistogram", "RadialHistogram")]
 
     def inputs(b):
-        return dict(cls=b.module_attr("physt.special_histograms", b.cfg.cls), value=b.array("p", (b.cfg.d,)))
+        return dict(cls=b.module_attr("physt.special_histograms", b.cfg.cls), value=b.array("p", (b.cfg.d,), getattr(b.cfg, "in_dtype", "float64")))
 
     def invoke(I, fn, a, cfg):
         if I is not None:
@@ -73,6 +74,12 @@ class _transform_point:
     @ensures("true_coordinates_in_the_class_axis_order")
     def _(a, old, result):
         return _tr_clause(a, old, result)
+
+    @ensures("coordinates_are_computed_in_double_precision_whatever_the_input_type")
+    def _(a, old, result):
+        # a narrow input type must not narrow the arithmetic: pi and 2*pi are not representable in float32, so an angle on the
+        # closed upper edge would fall outside the last bin
+        return dtype_of(result) == np.dtype("float64") if isarray(result) else typename(result) in ("float", "float64")
 
 
 @contract(SP + "TransformedHistogramMixin.transform", props=["C15"])
